@@ -25,9 +25,11 @@ package merkle_tree
 //@   props C18
 //@   opt purecalls=1
 //@   requires fn: hashFunc != nil && x <= 16 && len(v) < 4294967296 && (uint64(i) + 1) << uint64(x) <= 4294967295 && uint64(i) << uint64(x) <= uint64(len(v))
+//@   opt countcalls=1
 //@   ensures page: len(result) <= 65536 && fresh(result)
+//@   ensures exact: uint64(len(result)) == ite(((uint64(i) + 1) << uint64(x)) < uint64(len(v)), ((uint64(i) + 1) << uint64(x)), uint64(len(v))) - (uint64(i) << uint64(x)) && dyncalls() == old(dyncalls()) + len(result)
 //@   assigns everything
-//@   opt loopinv=fresh(ret) && uint64(idx) >= uint64(start) && uint64(idx) <= uint64(end) && uint64(end) <= uint64(len(v)) && uint64(len(ret)) == uint64(idx) - uint64(start) && uint64(end) - uint64(start) <= 65536 && uint64(cap(ret)) >= uint64(end) - uint64(start)
+//@   opt loopinv=fresh(ret) && uint64(idx) >= uint64(start) && uint64(idx) <= uint64(end) && uint64(end) <= uint64(len(v)) && uint64(len(ret)) == uint64(idx) - uint64(start) && uint64(end) - uint64(start) <= 65536 && uint64(cap(ret)) >= uint64(end) - uint64(start) && dyncalls() == old(dyncalls()) + len(ret) && uint64(start) == uint64(i) << uint64(x) && uint64(end) == ite(((uint64(i) + 1) << uint64(x)) < uint64(len(v)), ((uint64(i) + 1) << uint64(x)), uint64(len(v)))
 
 // GP (E.7) C: the hashed leaves padded with zero hashes to the next power of two (at least one entry): the length is
 // the smallest power of two that is >= max(1,|v|) and every entry past |v| is the zero hash; every element of v (nil and
